@@ -23,10 +23,22 @@ path branch's opener is `with open(file) as f: yield f`, the file-object branch 
 caller's object untouched, and the whole iteration sits inside `with opener() as fileobj:`;
 the order of the three argument checks (file, cast, pattern) and the cast-dict loop are checked
 too.
+
+What is pinned is the semantic content, not the source text.  Accepted without breaking the tie:
+* renaming of locals (both functions), of the nested `opener` / `cast_function` and of the loop
+  variables of `parse` (only the public parameter names file/pattern/cast/chunk are fixed);
+* where `_find_iter` lives: the function checked is the one the call inside `parse` RESOLVES to –
+  a (static) method of Logger, a module-level function, or a class attribute
+  `name = staticmethod(f)` – called as `Logger.name(...)` or `name(...)`;
+* the argument checks of `parse` moved into private helpers (`x = Logger._h(file)` / `x = _h(file)`
+  whose straight-line body ends in `return x`): inlined one level deep, order kept;
+* `import contextlib` + `contextlib.contextmanager` or `from contextlib import contextmanager [as n]`;
+  `PathLike` or `os.PathLike`; `open(file)` or `open(os.fspath(file))`;
+* local aliases of attribute expressions in `_find_iter` (`read = fileobj.read`) assigned once.
 """
 import ast
 
-from extract_lib import Unsupported, emit, find_func, parse_module
+from extract_lib import Unsupported, emit, find_class, parse_module
 
 
 class Renamer(ast.NodeTransformer):
@@ -79,8 +91,225 @@ def expect(cond, msg):
         raise Unsupported(msg)
 
 
+def strip_doc(body):
+    return [st for st in body
+            if not (isinstance(st, ast.Expr) and isinstance(st.value, ast.Constant) and isinstance(st.value.value, str))]
+
+
+def stores_of(fn_or_stmts, descend_nested=False):
+    """names bound in a function body (assignments, for/with targets, nested def/class names);
+    nested function bodies are separate scopes and are not descended into"""
+    out = []
+    stmts = fn_or_stmts.body if isinstance(fn_or_stmts, (ast.FunctionDef, ast.AsyncFunctionDef)) else fn_or_stmts
+
+    def walk(node):
+        if isinstance(node, (ast.FunctionDef, ast.AsyncFunctionDef, ast.ClassDef)):
+            out.append(node.name)
+            if not descend_nested:
+                return
+        if isinstance(node, ast.Lambda) and not descend_nested:
+            return
+        if isinstance(node, ast.Name) and isinstance(node.ctx, (ast.Store, ast.Del)):
+            out.append(node.id)
+        for ch in ast.iter_child_nodes(node):
+            walk(ch)
+    for st in stmts:
+        walk(st)
+    return out
+
+
+def own_nodes(stmts):
+    """all nodes of these statements that belong to the enclosing function's own scope"""
+    todo = list(stmts)
+    while todo:
+        n = todo.pop()
+        yield n
+        for ch in ast.iter_child_nodes(n):
+            if isinstance(ch, (ast.FunctionDef, ast.AsyncFunctionDef, ast.Lambda, ast.ClassDef)):
+                yield ch   # the def itself, not its body
+                continue
+            todo.append(ch)
+
+
+class Subst(ast.NodeTransformer):
+    def __init__(self, mapping):
+        self.mapping = mapping
+
+    def visit_Name(self, node):
+        if isinstance(node.ctx, ast.Load) and node.id in self.mapping:
+            return ast.copy_location(self.mapping[node.id], node)
+        return node
+
+
+def inline_attribute_aliases(fn):
+    """`read = fileobj.read` (assigned once, value = attribute chain rooted at a parameter, at the top
+    level of the body): substitute and drop the statement"""
+    params = {a.arg for a in fn.args.args}
+    counts = {}
+    for n in stores_of(fn, descend_nested=True):
+        counts[n] = counts.get(n, 0) + 1
+    mapping, body = {}, []
+    for st in fn.body:
+        if isinstance(st, ast.Assign) and len(st.targets) == 1 and isinstance(st.targets[0], ast.Name) \
+                and isinstance(st.value, ast.Attribute) and counts.get(st.targets[0].id) == 1:
+            root = st.value
+            while isinstance(root, ast.Attribute):
+                root = root.value
+            if isinstance(root, ast.Name) and root.id in params and counts.get(root.id, 0) == 0:
+                mapping[st.targets[0].id] = st.value
+                continue
+        body.append(st)
+    if not mapping:
+        return fn
+    new = ast.FunctionDef(name=fn.name, args=fn.args, body=[Subst(mapping).visit(st) for st in body],
+                          decorator_list=fn.decorator_list, returns=None, type_comment=None)
+    return ast.fix_missing_locations(ast.copy_location(new, fn))
+
+
+def module_defs(tree, name):
+    return [n for n in tree.body if isinstance(n, (ast.FunctionDef, ast.AsyncFunctionDef)) and n.name == name]
+
+
+def module_rebinds(tree, name):
+    """other module-level bindings of `name` (assignment, class, import)"""
+    n = 0
+    for st in tree.body:
+        if isinstance(st, ast.ClassDef) and st.name == name:
+            n += 1
+        elif isinstance(st, (ast.Assign, ast.AugAssign, ast.AnnAssign)):
+            n += sum(1 for x in ast.walk(st) if isinstance(x, ast.Name) and isinstance(x.ctx, ast.Store) and x.id == name)
+        elif isinstance(st, (ast.Import, ast.ImportFrom)):
+            n += sum(1 for a in st.names if (a.asname or a.name.split(".")[0]) == name)
+    return n
+
+
+def resolve_callee(tree, cls, func):
+    """the FunctionDef a call `Logger.NAME(...)` / `NAME(...)` made inside a method of `cls` runs.
+    -> (FunctionDef, is_method)"""
+    def class_member(name):
+        defs = [n for n in cls.body if isinstance(n, (ast.FunctionDef, ast.AsyncFunctionDef)) and n.name == name]
+        assigns = [n for n in cls.body if isinstance(n, ast.Assign) and any(
+            isinstance(t, ast.Name) and t.id == name for t in n.targets)]
+        expect(len(defs) + len(assigns) == 1, "%s.%s is bound %d times" % (cls.name, name, len(defs) + len(assigns)))
+        if defs:
+            decs = [src(d) for d in defs[0].decorator_list]
+            expect(decs == ["staticmethod"], "%s.%s is not a plain staticmethod: %r" % (cls.name, name, decs))
+            return defs[0]
+        v = assigns[0].value
+        expect(isinstance(v, ast.Call) and src(v.func) == "staticmethod" and len(v.args) == 1 and not v.keywords
+               and isinstance(v.args[0], ast.Name), "%s.%s = %s" % (cls.name, name, src(v)))
+        return module_func(v.args[0].id)
+
+    def module_func(name):
+        defs = module_defs(tree, name)
+        expect(len(defs) == 1 and module_rebinds(tree, name) == 0,
+               "module-level %s is not bound exactly once by a def" % name)
+        expect(not defs[0].decorator_list, "module-level %s is decorated" % name)
+        return defs[0]
+
+    if isinstance(func, ast.Attribute) and isinstance(func.value, ast.Name) and func.value.id == cls.name:
+        return class_member(func.attr)
+    if isinstance(func, ast.Name):
+        return module_func(func.id)
+    raise Unsupported("cannot resolve callee " + src(func))
+
+
+def module_level_nodes(tree):
+    """statements executed at import time: the module body, descending into if/try/with blocks but not
+    into function or class bodies"""
+    todo = list(tree.body)
+    while todo:
+        n = todo.pop(0)
+        yield n
+        if isinstance(n, (ast.If, ast.Try, ast.With)):
+            for fld in ("body", "orelse", "finalbody"):
+                todo.extend(getattr(n, fld, []) or [])
+            for h in getattr(n, "handlers", []) or []:
+                todo.extend(h.body)
+
+
+def imported_as(tree, module, attr, strict=True):
+    """source spellings under which `module.attr` is reachable through the module's imports.
+    strict: the root name must be bound exactly once at module level (non-strict is used for
+    `PathLike`, which loguru binds in a version-conditional block whose old branch is not modelled)"""
+    out = set()
+    for st in module_level_nodes(tree):
+        if isinstance(st, ast.Import):
+            for a in st.names:
+                if a.name == module:
+                    out.add((a.asname or a.name) + "." + attr)
+        elif isinstance(st, ast.ImportFrom) and st.module == module and st.level == 0:
+            for a in st.names:
+                if a.name == attr:
+                    out.add(a.asname or a.name)
+    if not strict:
+        return out
+    return {x for x in out if module_rebinds(tree, x.split(".")[0]) == 1}
+
+
+def inline_private_helpers(tree, cls, body, outer_names):
+    """`x = Logger._h(a, …)` / `x = _h(a, …)` at the top level of `body`, where `_h` is private, takes
+    exactly those names as parameters, has a straight-line body (no return except a final `return y`,
+    no yield of its own) and binds nothing that the caller uses: replaced by the helper's body (one
+    level deep).  Anything else is left alone (and will then fail the shape check)."""
+    out = []
+    for st in body:
+        if isinstance(st, ast.Assign) and len(st.targets) == 1 and isinstance(st.targets[0], ast.Name) \
+                and isinstance(st.value, ast.Call) and not st.value.keywords \
+                and all(isinstance(a, ast.Name) for a in st.value.args):
+            f = st.value.func
+            name = f.attr if isinstance(f, ast.Attribute) else (f.id if isinstance(f, ast.Name) else "")
+            if name.startswith("_") and not name.startswith("__"):
+                try:
+                    h = resolve_callee(tree, cls, f)
+                except Unsupported:
+                    out.append(st)
+                    continue
+                hb = strip_doc(h.body)
+                params = [a.arg for a in h.args.args]
+                ok = (not h.args.vararg and not h.args.kwarg and not h.args.kwonlyargs and not h.args.defaults
+                      and params == [a.id for a in st.value.args] and hb and isinstance(hb[-1], ast.Return)
+                      and isinstance(hb[-1].value, ast.Name))
+                if ok:
+                    inner = list(own_nodes(hb[:-1]))
+                    ok = not any(isinstance(n, (ast.Return, ast.Yield, ast.YieldFrom, ast.Await, ast.Global, ast.Nonlocal))
+                                 for n in inner)
+                if ok:
+                    ret, tgt = hb[-1].value.id, st.targets[0].id
+                    bound = set(stores_of(hb[:-1]))
+                    ok = ret in bound and not ((bound - {ret}) & (outer_names | set(params))) \
+                        and (ret == tgt or tgt not in bound)
+                if ok:
+                    stmts = hb[:-1]
+                    if ret != tgt:
+                        stmts = [RenameAll({ret: tgt}).visit(x) for x in stmts]
+                    out.extend(stmts)
+                    continue
+        out.append(st)
+    return out
+
+
+class RenameAll(ast.NodeTransformer):
+    """rename a name everywhere (loads, stores, def names) – used for the value a helper returns"""
+
+    def __init__(self, mapping):
+        self.mapping = mapping
+
+    def visit_Name(self, node):
+        if node.id in self.mapping:
+            return ast.copy_location(ast.Name(id=self.mapping[node.id], ctx=node.ctx), node)
+        return node
+
+    def visit_FunctionDef(self, node):
+        self.generic_visit(node)
+        if node.name in self.mapping:
+            node.name = self.mapping[node.name]
+        return node
+
+
 def find_iter_shape(fn):
     out = {}
+    fn = inline_attribute_aliases(fn)
     expect([a.arg for a in fn.args.args] == ["fileobj", "regex", "chunk"] or len(fn.args.args) == 3,
            "_find_iter takes three parameters")
     expect(not fn.args.vararg and not fn.args.kwarg and not fn.args.kwonlyargs, "_find_iter signature")
@@ -137,57 +366,106 @@ def find_iter_shape(fn):
     return out
 
 
-def parse_shape(fn):
+def parse_shape(tree, cls, fn):
+    """-> (constants, the FunctionDef that the call inside the `with` block resolves to)"""
     out = {}
-    body = [s for s in fn.body
-            if not (isinstance(s, ast.Expr) and isinstance(s.value, ast.Constant) and isinstance(s.value.value, str))]
+    expect([a.arg for a in fn.args.args] == ["file", "pattern"] and [a.arg for a in fn.args.kwonlyargs] == ["cast", "chunk"]
+           and not fn.args.vararg and not fn.args.kwarg, "parse signature changed")
+    body = strip_doc(fn.body)
+    outer = set(stores_of(body)) | {"file", "pattern", "cast", "chunk"}
+    body = inline_private_helpers(tree, cls, body, outer)
     expect(len(body) == 4, "parse body has %d top-level statements, expected 4 (file, cast, pattern, with)" % len(body))
     f, c, p, w = body
-    # --- file argument
-    expect(isinstance(f, ast.If) and src(f.test) == "isinstance(file, (str, PathLike))", "file test: " + src(f.test)
-           if isinstance(f, ast.If) else "first statement is not the file test")
-    expect(len(f.body) == 1 and isinstance(f.body[0], ast.FunctionDef) and f.body[0].name == "opener"
-           and [src(d) for d in f.body[0].decorator_list] == ["contextlib.contextmanager"], "path branch opener")
-    ob = f.body[0].body
+    cm = imported_as(tree, "contextlib", "contextmanager")
+    expect(cm, "contextlib.contextmanager is not imported")
+    pathlike = imported_as(tree, "os", "PathLike", strict=False)
+    fspath = imported_as(tree, "os", "fspath")
+
+    def is_cm_def(node, what):
+        expect(isinstance(node, ast.FunctionDef) and not node.args.args and not node.args.vararg and not node.args.kwarg
+               and not node.args.kwonlyargs and len(node.decorator_list) == 1 and src(node.decorator_list[0]) in cm,
+               what + " is not a parameterless @contextmanager function")
+        return node
+
+    # --- file argument: if isinstance(file, (str, PathLike)): opener = cm(with open(file) as f: yield f)
+    expect(isinstance(f, ast.If), "first statement is not the file test")
+    expect(src(f.test) in {"isinstance(file, (str, %s))" % pl for pl in pathlike}, "file test: " + src(f.test))
+    expect(len(f.body) == 1, "path branch has more than the opener")
+    op1 = is_cm_def(f.body[0], "path branch opener")
+    opener = op1.name
+    ob = op1.body
+    opens = {"open(file)"} | {"open(%s(file))" % fp for fp in fspath}
     expect(len(ob) == 1 and isinstance(ob[0], ast.With) and len(ob[0].items) == 1
-           and src(ob[0].items[0].context_expr) in ("open(file)", "open(os.fspath(file))")
-           and ob[0].items[0].optional_vars is not None
-           and len(ob[0].body) == 1 and src(ob[0].body[0]) == "yield " + src(ob[0].items[0].optional_vars),
+           and src(ob[0].items[0].context_expr) in opens
+           and isinstance(ob[0].items[0].optional_vars, ast.Name)
+           and len(ob[0].body) == 1 and src(ob[0].body[0]) == "yield " + ob[0].items[0].optional_vars.id,
            "path opener is not `with open(file) as f: yield f`")
     out["pathOpenerCloses"] = True
     expect(len(f.orelse) == 1 and isinstance(f.orelse[0], ast.If)
            and src(f.orelse[0].test) == "hasattr(file, 'read') and callable(file.read)", "file-object test")
     e = f.orelse[0]
-    expect(len(e.body) == 1 and isinstance(e.body[0], ast.FunctionDef) and e.body[0].name == "opener"
-           and [src(d) for d in e.body[0].decorator_list] == ["contextlib.contextmanager"]
-           and len(e.body[0].body) == 1 and src(e.body[0].body[0]) == "yield file", "file-object opener is not `yield file`")
+    expect(len(e.body) == 1, "file-object branch has more than the opener")
+    op2 = is_cm_def(e.body[0], "file-object opener")
+    expect(op2.name == opener and len(op2.body) == 1 and src(op2.body[0]) == "yield file",
+           "file-object opener is not `yield file` under the same name")
     out["fileObjectLeftOpen"] = True
-    expect(len(e.orelse) == 1 and isinstance(e.orelse[0], ast.Raise) and src(e.orelse[0].exc.func) == "TypeError",
+    expect(len(e.orelse) == 1 and isinstance(e.orelse[0], ast.Raise) and e.orelse[0].exc is not None
+           and isinstance(e.orelse[0].exc, ast.Call) and src(e.orelse[0].exc.func) == "TypeError",
            "invalid file does not raise TypeError")
     # --- cast argument
     expect(isinstance(c, ast.If) and src(c.test) == "isinstance(cast, dict)", "cast test")
-    cf = c.body
-    expect(len(cf) == 1 and isinstance(cf[0], ast.FunctionDef) and cf[0].name == "cast_function"
-           and src(cf[0]).split("\n", 1)[1].strip() ==
-           "for key, converter in cast.items():\n        if key in groups:\n            groups[key] = converter(groups[key])",
-           "cast dict loop changed: " + src(cf[0]))
+    expect(len(c.body) == 1 and isinstance(c.body[0], ast.FunctionDef) and not c.body[0].decorator_list
+           and len(c.body[0].args.args) == 1 and not c.body[0].args.vararg and not c.body[0].args.kwarg
+           and not c.body[0].args.kwonlyargs and not c.body[0].args.defaults, "dict branch does not define the cast function")
+    cfd = c.body[0]
+    caster, gp = cfd.name, cfd.args.args[0].arg
+    cb = strip_doc(cfd.body)
+    expect(len(cb) == 1 and isinstance(cb[0], ast.For) and not cb[0].orelse and src(cb[0].iter) == "cast.items()"
+           and isinstance(cb[0].target, ast.Tuple) and len(cb[0].target.elts) == 2
+           and all(isinstance(x, ast.Name) for x in cb[0].target.elts), "cast dict loop changed: " + src(cfd))
+    k, cv = (x.id for x in cb[0].target.elts)
+    expect(len({k, cv, gp, "cast"}) == 4, "cast dict loop reuses a name")
+    lb = cb[0].body
+    expect(len(lb) == 1 and isinstance(lb[0], ast.If) and not lb[0].orelse and src(lb[0].test) == "%s in %s" % (k, gp)
+           and [src(x) for x in lb[0].body] == ["%s[%s] = %s(%s[%s])" % (gp, k, cv, gp, k)],
+           "cast dict loop changed: " + src(cfd))
     expect(len(c.orelse) == 1 and isinstance(c.orelse[0], ast.If) and src(c.orelse[0].test) == "callable(cast)"
-           and src(c.orelse[0].body[0]) == "cast_function = cast" and isinstance(c.orelse[0].orelse[0], ast.Raise)
+           and [src(x) for x in c.orelse[0].body] == ["%s = cast" % caster] and len(c.orelse[0].orelse) == 1
+           and isinstance(c.orelse[0].orelse[0], ast.Raise) and isinstance(c.orelse[0].orelse[0].exc, ast.Call)
            and src(c.orelse[0].orelse[0].exc.func) == "TypeError", "callable cast branch")
     # --- pattern
-    expect(isinstance(p, ast.Try) and src(p.body[0]) == "regex = re.compile(pattern)" and len(p.handlers) == 1
-           and src(p.handlers[0].type) == "TypeError", "pattern compilation")
-    # --- with opener() as fileobj: matches = _find_iter(...); for match in matches: groupdict, cast, yield
-    expect(isinstance(w, ast.With) and len(w.items) == 1 and src(w.items[0].context_expr) == "opener()"
-           and src(w.items[0].optional_vars) == "fileobj", "iteration is not inside `with opener() as fileobj:`")
+    recompile = imported_as(tree, "re", "compile")
+    expect(isinstance(p, ast.Try) and len(p.body) == 1 and isinstance(p.body[0], ast.Assign)
+           and len(p.body[0].targets) == 1 and isinstance(p.body[0].targets[0], ast.Name)
+           and src(p.body[0].value) in {"%s(pattern)" % rc for rc in recompile}
+           and len(p.handlers) == 1 and src(p.handlers[0].type) == "TypeError" and not p.orelse and not p.finalbody
+           and len(p.handlers[0].body) == 1 and isinstance(p.handlers[0].body[0], ast.Raise)
+           and isinstance(p.handlers[0].body[0].exc, ast.Call) and src(p.handlers[0].body[0].exc.func) == "TypeError",
+           "pattern compilation")
+    regex = p.body[0].targets[0].id
+    # --- with opener() as fileobj: matches = _find_iter(fileobj, regex, chunk); for m in matches: …
+    expect(isinstance(w, ast.With) and len(w.items) == 1 and src(w.items[0].context_expr) == opener + "()"
+           and isinstance(w.items[0].optional_vars, ast.Name), "iteration is not inside `with opener() as fileobj:`")
+    fo = w.items[0].optional_vars.id
     wb = w.body
-    expect(len(wb) == 2 and src(wb[0]) == "matches = Logger._find_iter(fileobj, regex, chunk)", "call of _find_iter")
+    expect(len(wb) == 2 and isinstance(wb[0], ast.Assign) and len(wb[0].targets) == 1
+           and isinstance(wb[0].targets[0], ast.Name) and isinstance(wb[0].value, ast.Call)
+           and not wb[0].value.keywords and [src(a) for a in wb[0].value.args] == [fo, regex, "chunk"],
+           "call of _find_iter(fileobj, regex, chunk)")
+    ms = wb[0].targets[0].id
+    callee = resolve_callee(tree, cls, wb[0].value.func)
     lp = wb[1]
-    expect(isinstance(lp, ast.For) and src(lp.iter) == "matches" and not lp.orelse
-           and [src(s) for s in lp.body] == ["groups = %s.groupdict()" % src(lp.target), "cast_function(groups)",
-                                             "yield groups"], "per-match body (groupdict, cast, yield)")
+    expect(isinstance(lp, ast.For) and src(lp.iter) == ms and not lp.orelse and isinstance(lp.target, ast.Name)
+           and len(lp.body) == 3 and isinstance(lp.body[0], ast.Assign) and len(lp.body[0].targets) == 1
+           and isinstance(lp.body[0].targets[0], ast.Name)
+           and src(lp.body[0].value) == "%s.groupdict()" % lp.target.id, "per-match body (groupdict, cast, yield)")
+    g = lp.body[0].targets[0].id
+    expect([src(x) for x in lp.body[1:]] == ["%s(%s)" % (caster, g), "yield %s" % g],
+           "per-match body (groupdict, cast, yield)")
+    names = [opener, caster, regex, fo, ms, lp.target.id, g, "file", "pattern", "cast", "chunk"]
+    expect(len(set(names)) == len(names), "parse reuses a local name: %r" % names)
     out["iterationInsideWith"] = True
-    return out
+    return out, callee
 
 
 def lean_bool(b):
@@ -199,8 +477,12 @@ def generate():
     body = "namespace Parse.Gen\n\n"
     try:
         tree, _ = parse_module("_logger.py")
-        fi = find_iter_shape(find_func(tree, "_find_iter", cls="Logger"))
-        ps = parse_shape(find_func(tree, "parse", cls="Logger"))
+        cls = find_class(tree, "Logger")
+        parses = [n for n in cls.body if isinstance(n, ast.FunctionDef) and n.name == "parse"]
+        expect(len(parses) == 1 and [src(d) for d in parses[0].decorator_list] == ["staticmethod"],
+               "Logger.parse is not a single static method")
+        ps, callee = parse_shape(tree, cls, parses[0])
+        fi = find_iter_shape(callee)      # the function the call inside parse resolves to
         op, k, text = fi["guard"]
         body += "/-- `if %s:` – the test that lets a round trim the buffer and yield -/\n" % text
         body += "def guard (n : Nat) : Bool := decide (n %s %d)\n\n" % (op, k)
